@@ -229,6 +229,8 @@ struct MOp {
     completion_checked: bool,
     /// the identifier on the wire has been compared with those of the other outstanding operations
     id_checked: bool,
+    /// a PUBREL that follows a failing PUBREC has been answered (PUBCOMP 0x92), as a broker would
+    stray_pubrel_answered: bool,
     /// a SUBSCRIBE whose length is within the subscription-identifier band of the server's
     /// Maximum Packet Size: a local size refusal is as acceptable as sending it
     size_unclear: bool,
@@ -426,6 +428,22 @@ impl<'a> Sim<'a> {
                         "C10/receive-maximum-exceeded",
                         format!("{o} QoS>0 PUBLISH packets outstanding on the wire, Receive Maximum is {r}"),
                     );
+                }
+            }
+        }
+        // a conformant broker answers a PUBREL it has no exchange for (here: one that follows its
+        // own failing PUBREC) with PUBCOMP 0x92; whatever the client makes of that is its business
+        for i in 0..self.mops.len() {
+            if self.mops[i].kind != OpKind::Pub2 || self.mops[i].stray_pubrel_answered {
+                continue;
+            }
+            let failing = self.mops[i].acks.first().map(|a| a.reason >= 0x80).unwrap_or(false);
+            let pubrels = self.tr.map.get(i).and_then(|m| m.as_ref()).map(|m| m.pubrels).unwrap_or(0);
+            if failing && pubrels > 0 && !self.ctx_dropped && self.terminated.is_none() {
+                self.mops[i].stray_pubrel_answered = true;
+                if let Some(pid) = self.tr.pid(i) {
+                    let bytes = rc::encode(&rc::Packet::Pubcomp(rc::Ack { pid, reason: 0x92, ..Default::default() }), &rc::Form::canonical());
+                    self.w.reader.feed(bytes);
                 }
             }
         }
@@ -1144,6 +1162,7 @@ impl<'a> Sim<'a> {
             quota_freed: false,
             completion_checked: false,
             id_checked: false,
+            stray_pubrel_answered: false,
             size_unclear,
         });
         self.msubs.push(match kind {
@@ -1466,6 +1485,7 @@ impl<'a> Sim<'a> {
                         quota_freed: false,
                         completion_checked: false,
             id_checked: false,
+            stray_pubrel_answered: false,
                         size_unclear: false,
                     });
                     self.msubs.push(None);
@@ -1535,6 +1555,7 @@ impl<'a> Sim<'a> {
                         quota_freed: false,
                         completion_checked: false,
             id_checked: false,
+            stray_pubrel_answered: false,
                         size_unclear: false,
                     });
                     self.msubs.push(None);
@@ -1614,6 +1635,7 @@ impl<'a> Sim<'a> {
                     quota_freed: false,
                     completion_checked: false,
             id_checked: false,
+            stray_pubrel_answered: false,
                     size_unclear: false,
                 });
                 self.msubs.push(None);
